@@ -960,6 +960,55 @@ fn main() {
         }
 
         {
+            // Block LISTS inside one resource-extension entry, as a foreign encoder may write
+            // them: the relation between consecutive blocks (nested, overlapping, touching,
+            // duplicate, ascending, descending, reaching outside the issuer) is the dimension.
+            use rpki_verif::engine::{certref as cr, der};
+            let sp = ctx.space("resigned.block_lists",
+                "the v4 resp. AS entry of the resource extension of a sub-CA and an EE certificate replaced by every list of <= 2 (quick: plus every list of 3 over a 10-block sub-alphabet; thorough: every list of <= 3) blocks (a, b), a <= b, over 7 points (both ends of an issuer block, interior points one apart and far apart, the first number outside), i.e. every relation between consecutive list entries: disjoint, touching, overlapping, nested (inner block ending before / at the end of the outer), duplicate, in ascending and descending order; single numbers written as id / one-address prefix and, second spelling, as range a..a resp. prefix-expressible blocks as ranges; both overclaim policies; re-signed with the issuer's key; decoded strict and relaxed; oracle: the reference reader - whatever is accepted must yield exactly the union of the listed blocks (refuse; and that union must lie inside the issuer), its intersection with the issuer (trim), and canonical lists (ascending, disjoint, non-touching, inside the issuer, canonical spelling) must be accepted; non-trivial = lists of two or more blocks that are not canonical");
+            let as_pts: [u128; 7] = [64496, 64497, 64500, 64501, 64510, 64511, 64512];
+            let v4_pts: [u128; 7] = [0x0a00_0000, 0x0a00_00ff, 0x0a00_0100, 0x0a00_ffff, 0x0a01_0000, 0x0aff_ffff, 0x0b00_0000];
+            let blocks_of = |p: &[u128; 7]| -> Vec<(u128, u128)> { let mut v = Vec::new(); for i in 0..7 { for j in i..7 { v.push((p[i], p[j])) } } v };
+            let is_prefix = |a: u128, b: u128| -> Option<u8> { let n = b - a + 1; if n.is_power_of_two() && a % n == 0 { Some(32 - n.trailing_zeros() as u8) } else { None } };
+            let enc_as = |l: &[(u128, u128)], alt: bool| -> Vec<u8> {
+                der::ctx(0, true, &der::seq(&l.iter().map(|&(a, b)| if a == b && !alt { der::int_u(a) } else { der::seq(&[der::int_u(a), der::int_u(b)]) }).collect::<Vec<_>>()))
+            };
+            let enc_v4 = |l: &[(u128, u128)], alt: bool| -> Vec<u8> {
+                der::seq(&[der::octets(&[0, 1]), der::seq(&l.iter().map(|&(a, b)| match is_prefix(a, b) { Some(len) if !alt => der::ip_prefix_bits(a, len, 32), _ => der::ip_range(a, b, 32) }).collect::<Vec<_>>())])
+            };
+            let canonical = |l: &[(u128, u128)], issuer: &[(u128, u128)]| -> bool { cr::normalise(l) == l && cr::subset(l, issuer) };
+            for (fam, pts) in [("as", &as_pts), ("v4", &v4_pts)] {
+                let blocks = blocks_of(pts);
+                // the sub-alphabet for lists of three: blocks over the points 0, 1, 3, 5 (ends and two interior points)
+                let small: Vec<(u128, u128)> = { let q = [pts[0], pts[1], pts[3], pts[5]]; let mut v = Vec::new(); for i in 0..4 { for j in i..4 { v.push((q[i], q[j])) } } v };
+                let mut lists: Vec<(Vec<(u128, u128)>, bool)> = Vec::new();
+                for &a in &blocks { for alt in [false, true] { lists.push((vec![a], alt)) } }
+                for &a in &blocks { for &b in &blocks { for alt in [false, true] { lists.push((vec![a, b], alt)) } } }
+                let three = if ctx.tier.is_thorough() { &blocks } else { &small };
+                for &a in three { for &b in three { for &c in three { lists.push((vec![a, b, c], false)) } } }
+                let issuer = if fam == "as" { &facts.asn } else { &facts.v4 };
+                for kind in [Kind::Ca, Kind::Ee] {
+                    for mode in [Overclaim::Refuse, Overclaim::Trim] {
+                        let spec = Spec::issued(kind, if kind == Kind::Ca { CA2_KEY } else { LEAF_KEY }, CA_KEY, signer.ski(CA_KEY), sub_res.clone(), mode);
+                        let tbs = tbs_of(&build_cert_der(&signer, &spec));
+                        lists.par_iter().for_each(|(l, alt)| {
+                            let body = if fam == "as" { der::seq(&[enc_as(l, *alt)]) } else { der::seq(&[enc_v4(l, *alt)]) };
+                            let m = cr::map_extensions(&tbs, &mut |oid, whole| {
+                                let hit = if fam == "as" { oid == cr::OID_AS || oid == cr::OID_AS_V2 } else { oid == cr::OID_IP || oid == cr::OID_IP_V2 };
+                                if hit { vec![cr::extension(oid, true, &body)] } else { vec![whole.to_vec()] }
+                            });
+                            let canon = canonical(l, issuer);
+                            if l.len() >= 2 && cr::normalise(l) != *l { sp.nontrivial(1) }
+                            run(&sp, "C01.blocklists", kind, &m, canon && !*alt, &|strict| format!("kind={} mode={} strict={strict} family={fam} alt_spelling={alt} list={}", kind_name(kind), mode_name(mode), l.iter().map(|(a, b)| format!("{a:#x}-{b:#x}")).collect::<Vec<_>>().join(",")));
+                        });
+                    }
+                }
+                sp.sample_str(|| format!("family={fam}: {} blocks, {} lists x 2 kinds x 2 policies x 2 decode modes", blocks.len(), lists.len()));
+            }
+            sp.done(true, if ctx.tier.is_thorough() { "all lists of <= 3 blocks over 28 blocks (7 points) x 2 families x 2 kinds x 2 policies x 2 decode modes; 2 spellings for lists of <= 2" } else { "all lists of <= 2 blocks over 28 blocks (7 points) in 2 spellings, all lists of 3 over 10 blocks, x 2 families x 2 kinds x 2 policies x 2 decode modes" });
+        }
+
+        {
             use rpki_verif::engine::{certref as cr, der};
             let sp = ctx.space("resigned.key_identifiers",
                 "the key identifier inside the SKI resp. AKI extension of a sub-CA, EE and router certificate replaced by every member of {right, right minus last octet, right minus first octet, right + 00, right + right, right + 107 octets, last bit flipped, first bit flipped, empty, other key's} in the primitive and (AKI, SKI) two constructed-string spellings, plus AKI without keyIdentifier; re-signed; oracle: accepted only if the identifier is exactly the right 20 octets (reference reader), and the right one in primitive form is accepted; non-trivial = every spelling");
